@@ -103,6 +103,15 @@ func emitObs(id string, c rtgen.CaseT, ask []string, o rtgen.ObsT, st *hx.Stats)
 				break
 			}
 		}
+		for _, g := range c.Script {
+			if g.MountSub > 0 {
+				st.Count("script_with_mounted_subrouter")
+				break
+			}
+		}
+		if c.Req.Raw != "" {
+			st.Count("request_target_with_needless_escapes")
+		}
 	}
 	return l.String() + hx.Comment(c)
 }
@@ -132,6 +141,14 @@ func fixed() []rtgen.CaseT {
 		reg(G, p8+"/:z/w/*", rtgen.ConsT{Name: "z", Kind: "int"})}
 	deep := []rtgen.RegT{reg(G, "/a/:x/b/c"), reg(G, "/a/:p/*"), reg(G, "/a/b/:q/c", rtgen.ConsT{Name: "q", Kind: "int"}), reg(G, "/:r/:s")}
 	ovfBack := []rtgen.RegT{reg(G, p8+"/:x", rtgen.ConsT{Name: "x", Kind: "int"}), reg(G, "/:p1/:p2/*")}
+	grpRoot := []rtgen.RegT{{Method: G, Groups: []string{"/api"}, Path: "/"}, {Method: "POST", Groups: []string{"/api"}, Path: ""}, {Method: G, Groups: []string{"/api", "/v1"}, Path: "/"}}
+	mnt := func(m, prefix, sub string, idx int, cons ...rtgen.ConsT) rtgen.RegT {
+		return rtgen.RegT{Method: m, Cons: cons, MountSub: 1, MountPrefix: prefix, SubPath: sub, SubIdx: idx, Path: rtgen.MountJoin(prefix, sub)}
+	}
+	mounted := []rtgen.RegT{reg(G, "/api/health"),
+		mnt(G, "/api/v1", "/users/:id", 0), mnt(G, "/api/v1", "/", 1), mnt("DELETE", "/api/v1", "/users/:id", 2, rtgen.ConsT{Name: "id", Kind: "int"}),
+		mnt(G, "/api/latest/", "/users/:id", 0), mnt(G, "/api/latest/", "/", 1), mnt("DELETE", "/api/latest/", "/users/:id", 2, rtgen.ConsT{Name: "id", Kind: "int"})}
+	renamed := []rtgen.RegT{reg(G, "/u/:id/:tab", rtgen.ConsT{Name: "id", Kind: "int"}), reg(G, "/u/:name/profile", rtgen.ConsT{Name: "name", Kind: "regex", Arg: "[a-z]+"})}
 	ovfDrop := []rtgen.RegT{reg(G, p8+"/:x/k"), reg(G, p8+"/*"), reg(G, p8+"/:y/:z/w")}
 	mk := func(s []rtgen.RegT, m, p string, nr bool) rtgen.CaseT {
 		return rtgen.CaseT{Script: s, Req: rtgen.ReqT{Method: m, Path: p}, NoRoute: nr}
@@ -180,6 +197,14 @@ func fixed() []rtgen.CaseT {
 		mk(deep, G, "/a/1/b/d", false), mk(deep, G, "/a/1/b/c", false), mk(deep, G, "/a/b/b/c", false), mk(deep, G, "/a/1", false),
 		mk(ovfBack, G, "/1/2/3/4/5/6/7/8/abc", false), mk(ovfBack, G, "/1/2/3/4/5/6/7/8/9", false), mk(ovfBack, "PUT", "/1/2/3/4/5/6/7/8/abc", false),
 		mk(k01b, G, "/users/admin/q/y", false), mk(k01b, "PUT", "/users/admin/posts", false),
+		// a group's own root: g.GET("") is the prefix, g.GET("/") the prefix with a trailing slash (two different routes)
+		mk(grpRoot, G, "/api", false), mk(grpRoot, G, "/api/", false), mk(grpRoot, "POST", "/api/", false), mk(grpRoot, G, "/api/v1/", false), mk(grpRoot, G, "/api/v1", false),
+		// a sub-router mounted twice (both prefixes serve all its routes; "/" is the prefix itself), next to a direct route
+		mk(mounted, G, "/api/v1/users/7", false), mk(mounted, G, "/api/latest/users/7", false), mk(mounted, G, "/api/latest", false),
+		mk(mounted, "POST", "/api/latest/users/7", false), mk(mounted, G, "/api/v1/", false), mk(mounted, "DELETE", "/api/latest/users/x", false),
+		// a sibling that names the shared parameter position differently rejects (its constraint fails); the
+		// fallback that is served afterwards reads its own names, nothing of the rejected sibling's
+		mk(renamed, G, "/u/42/profile", false), mk(renamed, G, "/u/bob/profile", false), mk(renamed, G, "/u/42/x", false), mk(renamed, "PUT", "/u/42/profile", false),
 		// an abandoned alternative's capture past the inline slots is dropped too
 		mk(ovfDrop, G, "/1/2/3/4/5/6/7/8/9/m", false), mk(ovfDrop, G, "/1/2/3/4/5/6/7/8/9/k", false), mk(ovfDrop, G, "/1/2/3/4/5/6/7/8/9/10/11", false),
 	}
